@@ -333,6 +333,33 @@ class SymReal:
     def __mod__(self, o):
         raise Unsupported("mod on SymReal")
 
+    def __trunc__(self):
+        return ctx().trunc(self)
+
+    def __floor__(self):
+        t = ctx().trunc(self)
+        return t if bool(self >= t) else t - 1
+
+    def __ceil__(self):
+        t = ctx().trunc(self)
+        return t if bool(self <= t) else t + 1
+
+    def is_integer(self):
+        raise Unsupported("is_integer on SymReal")
+
+    def item(self):
+        return self
+
+    @property
+    def real(self):
+        return self
+
+    def __copy__(self):
+        return self
+
+    def __deepcopy__(self, memo):
+        return self
+
     # -- comparisons
     def _cmp(self, o, op):
         if _is_nan(o):
